@@ -411,7 +411,7 @@ static int run_cmd(char *op, int *a, int na) {
     else if (IS("csdo_chain")) { chain_kind = a[0]; chain_idx = a[1]; chain_sub = a[2]; chain_size = a[3]; chain_tmt = a[4]; chain_base = na > 5 ? a[5] : 0; }
     else if (IS("csrv_size")) { srv_size = (uint32_t)a[0]; }
     /* built-in SDO server: answers the LAST frame the client transmitted.  csrv rxid kind   kind: 0 conforming, 1 abort (matching
-     * multiplexer), 2 wrong toggle, 3 unknown command, 4 announced size + 1, 5 wrong multiplexer, 6 abort with a foreign multiplexer;
+     * multiplexer), 2 wrong toggle, 3 unknown command, 4 announced size + 1, 5 wrong multiplexer, 6 abort with a foreign multiplexer, 7 a command no class knows (04h);
      * object bytes of uploads: byte i = (3 i + 1) mod 256.  The injected frame is printed as item `inj'. */
     else if (IS("csrv")) {
         uint8_t *q = last_tx.Data, f[8] = {0}; int kind = a[1]; uint8_t c = q[0];
@@ -432,6 +432,7 @@ static int run_cmd(char *op, int *a, int na) {
         if (kind == 3) { memset(f, 0, 8); f[0] = 0xE0; }
         if (kind == 5) { f[1] = 9; f[2] = 9; f[3] = 9; }
         if (kind == 6) { memset(f, 0, 8); f[0] = 0x80; f[1] = 1; f[2] = 2; f[3] = 3; f[6] = 2; f[7] = 6; }
+        if (kind == 7) { f[0] = 0x04; f[1] = 1; f[2] = 2; f[3] = 3; f[4] = 4; }     /* a frame no transfer class knows */
         item_begin(); printf("inj"); for (int i = 0; i < 8; i++) printf(" %u", f[i]);
         memset(&rxq, 0, sizeof rxq); rxq.Identifier = (uint32_t)a[0]; rxq.DLC = 8; memcpy(rxq.Data, f, 8);
         rx_mode = 1; CONodeProcess(&node);
